@@ -183,6 +183,25 @@ let store_snap (st : state) =
       ^ "@" ^ show_addr im.s_a4 ^ "/" ^ show_addr im.s_a6 ^ "/" ^ show_item im.s_ad) st.st_prov.store in
   "S[" ^ String.concat "," (sorted ims) ^ "]"
 
+(* Property monitor, evaluated after EVERY op of EVERY case in the run against [repaired]: two live sessions of one
+   routing domain holding the same address, or delegated prefixes that overlap (containment, any lengths).  The
+   marker makes the case a mismatch even when implementation and model agree on everything else. *)
+let overlap_items (a1, l1) (a2, l2) =
+  let l = if int_of_n l1 <= int_of_n l2 then l1 else l2 in
+  let sh = pow2 (128 - int_of_n l) in
+  N.div a1 sh = N.div a2 sh
+let dup_marker (st : state) =
+  let live = List.filter (fun s -> s.s_live) st.st_sess in
+  let rec pairs = function [] -> [] | a :: r -> List.map (fun b -> (a, b)) r @ pairs r in
+  let hit = List.concat_map (fun (a, b) ->
+      if a.s_vrf <> b.s_vrf then [] else
+        List.filter_map (fun f -> match holds a f, holds b f with
+            | Some x, Some y when (if f = FD then overlap_items x y else x = y) ->
+              Some (Printf.sprintf "%s:%s~%s:%s,%s" (famch f) (show_item (Some x)) (show_item (Some y))
+                      (sid_name a.s_id) (sid_name b.s_id))
+            | _ -> None) [F4; F6; FD]) (pairs live) in
+  match hit with [] -> "" | h :: _ -> " | !dup " ^ h
+
 (* all candidate paths of a list of (model op, reply kind): returns (state, reply tokens) list *)
 let rec run_ops variant (st : state) ops : (state * string list) list =
   match ops with
@@ -199,6 +218,7 @@ let rec run_ops variant (st : state) ops : (state * string list) list =
         List.map (fun (s2, toks) -> (s2, tok @ toks)) (run_ops variant st' rest)) (step variant st o)
 
 let run_case_b variant line isegs =
+  let monitor_on = (variant = repaired) in
   let parts = split_segs_ref line in
   let cfg = tokens (List.hd parts) in
   let (st0, queue, declared) = parse_cfg_b (List.tl cfg) in
@@ -367,7 +387,7 @@ let run_case_b variant line isegs =
                    | Some c -> c | None -> List.hd cands))
            | None -> List.hd cands in
          let before = !st in
-         res := render pick :: !res; st := fst pick;
+         res := (render pick ^ (if monitor_on then dup_marker (fst pick) else "")) :: !res; st := fst pick;
          (* a checkpoint of a session persists what it knew at that moment (client link-local address) *)
          List.iter (fun k -> let g = gate k in
              if g.inc >= 0 then begin
@@ -431,7 +451,7 @@ let () =
                                 | Some c -> c | None -> List.hd cands))
                | None -> List.hd cands in
              let (s', ot) = pick in
-             res := seg s' ot :: !res; st := s');
+             res := (seg s' ot ^ (if variant = repaired then dup_marker s' else "")) :: !res; st := s');
           incr k
         end) (List.tl parts);
       print_endline (String.concat " ; " (List.rev !res))
